@@ -19,6 +19,14 @@ type pathAlpha struct {
 	k, maxN int
 	e       enum.Embed
 	cum     []uint64
+	stride  uint64 // 0/1: every member; s: every s-th member
+}
+
+// strided returns the alphabet holding every s-th member of a.
+func (a *pathAlpha) strided(s uint64) *pathAlpha {
+	b := *a
+	b.stride = s
+	return &b
 }
 
 func newPathAlpha(k, maxN int, e enum.Embed) *pathAlpha {
@@ -31,9 +39,17 @@ func newPathAlpha(k, maxN int, e enum.Embed) *pathAlpha {
 	return a
 }
 
-func (a *pathAlpha) size() uint64 { return a.cum[len(a.cum)-1] }
+func (a *pathAlpha) size() uint64 {
+	if a.stride > 1 {
+		return (a.cum[len(a.cum)-1] + a.stride - 1) / a.stride
+	}
+	return a.cum[len(a.cum)-1]
+}
 
 func (a *pathAlpha) get(i uint64, buf Path) Path {
+	if a.stride > 1 {
+		i *= a.stride
+	}
 	prev := uint64(0)
 	for n, c := range a.cum {
 		if i < c {
@@ -573,6 +589,7 @@ func init() {
 					c03BooleanScope("boolean/P(3,0..3) x P(3,0..2)/E_unit", u3, u2, false, 2),
 					c03BooleanScope("boolean/P(3,0..3) x P(3,0..2)/E_ax", a3, a2, false, 2),
 					c03BooleanScope("boolean2/P(3,0..2)^2 x 4 clips/E_ax", a2, a2, true, 3),
+					c03BooleanScope("boolean2/(every 7-th of P(3,0..3))^2 x 4 clips/E_ax", a3.strided(7), a3.strided(7), true, 3),
 					c03OffsetScope("offset/P(3,0..3)/E_unit", u3, false, 2), c03OffsetScope("offset/P(3,0..3)/E_ax", a3, false, 2),
 					c03RectScope(newPathAlpha(4, 3, enum.Eax), 2),
 					c03MinkowskiScope(a3, a2, 2), c03MinkowskiScope(u2, u3, 2))
